@@ -70,10 +70,10 @@ func run(c *lib.Ctx) error {
 		defer wg.Done()
 		ms := []string{"CONSTANTS Clients = {1, 2} MaxOps = 2 Pool <- PoolTiny\n"}
 		if c.Thorough() {
-			ms = []string{"CONSTANTS Clients = {1, 2} MaxOps = 2 Pool <- PoolAll\n", "CONSTANTS Clients = {1, 2, 3} MaxOps = 1 Pool <- PoolAll\n", "CONSTANTS Clients = {1, 2, 3} MaxOps = 2 Pool <- PoolSmall\n"}
+			ms = []string{"CONSTANTS Clients = {1, 2} MaxOps = 2 Pool <- PoolAll\n", "CONSTANTS Clients = {1, 2, 3} MaxOps = 1 Pool <- PoolAll\n", "CONSTANTS Clients = {1, 2} MaxOps = 3 Pool <- PoolTiny\n"}
 		}
 		for _, m := range ms {
-			r, err := c.TLC("MCDaemonLin "+m[10:len(m)-1], lib.TLCRun{Dir: dir, Module: "MCDaemonLin", Workers: 1, Timeout: 12 * time.Minute, HeapGB: 6,
+			r, err := c.TLC("MCDaemonLin "+m[10:len(m)-1], lib.TLCRun{Dir: dir, Module: "MCDaemonLin", Workers: c.Pick(1, 2), Timeout: 12 * time.Minute, HeapGB: 6,
 				Files: map[string][]byte{"MCDaemonLin.cfg": []byte(m + "SPECIFICATION Spec\nINVARIANT NoDupSeq\nINVARIANT NoLostAdd\nINVARIANT SeqGrows\nINVARIANT StoreOK\nINVARIANT FinalAgrees\n")}})
 			if err != nil {
 				fail(err)
